@@ -184,8 +184,46 @@ func main() {
 		i, _ := strconv.Atoi(os.Args[2])
 		n, _ := strconv.Atoi(os.Args[3])
 		child(i, n)
+	case "stress":
+		// the free-running stage without the race detector (this binary is also built without -race
+		// as bin/stresspass): 64 goroutines on private objects
+		mism, ops := scen.Stress(64, 1000)
+		// ... and every base vector of both versions scored by 48 goroutines at once, each in its own order
+		for _, m := range scen.BulkScoring(48) {
+			if len(mism) < 8 {
+				mism = append(mism, m)
+			}
+		}
+		ops += 48 * scen.BulkVectors
+		b, _ := json.Marshal(scen.RaceResult{Operations: ops, Mismatches: mism})
+		fmt.Println("RACEPASS-RESULT " + string(b))
 	case "run":
 		res := run()
+		// stress stage: the sibling binary built without -race, if present
+		if exe, err := os.Executable(); err == nil {
+			sp := strings.TrimSuffix(exe, "racepass") + "stresspass"
+			if _, err := os.Stat(sp); err == nil {
+				out, _ := exec.Command(sp, "stress").CombinedOutput()
+				var sr scen.RaceResult
+				ok := false
+				for _, line := range strings.Split(string(out), "\n") {
+					if strings.HasPrefix(line, "RACEPASS-RESULT ") {
+						ok = json.Unmarshal([]byte(strings.TrimPrefix(line, "RACEPASS-RESULT ")), &sr) == nil
+					}
+				}
+				if ok {
+					res.Operations += sr.Operations
+					res.StressOperations = sr.Operations
+					res.Mismatches = append(res.Mismatches, sr.Mismatches...)
+				} else if strings.Contains(string(out), "github.com/goark/go-cvss/") && (strings.Contains(string(out), "fatal error:") || strings.Contains(string(out), "panic:")) {
+					tail := string(out)
+					if len(tail) > 3000 {
+						tail = tail[:3000]
+					}
+					res.Crash = "stress stage: " + tail
+				}
+			}
+		}
 		b, _ := json.MarshalIndent(res, "", " ")
 		if err := os.WriteFile(os.Args[2], b, 0o644); err != nil {
 			fmt.Println(err)
